@@ -42,6 +42,15 @@ pub fn families() -> Vec<Family> {
         .steps(600_000)
         .tokio(),
         Family::new(
+            "c01_clients",
+            "C01",
+            "what the AsyncClient and the WebSocketClient put on the wire for call_with_formats / notify_with_formats (any format codes; body absent, empty or present) and, on the AsyncClient, call_typed_slice / call_typed_slice_aligned at path lengths of every alignment residue: tapped and compared with the oracle encoding (aligned slices: with the builder route, plus the alignment of the payload in the frame)",
+            c01_clients,
+        )
+        .runs(6_000, 360_000)
+        .steps(600_000)
+        .tokio(),
+        Family::new(
             "c01_servers",
             "C01",
             "the same pipelined requests (handler-dictated response fields, handler errors, and requests refused before dispatch: unknown path, bad version, non-pointer query format, non-UTF-8 query) sent raw to the blocking Server, the AsyncServer and the WebSocketServer: every response frame must be byte-identical on all three, and equal to the oracle encoding where the handler dictated it",
@@ -813,5 +822,153 @@ fn c01_servers(case: &Case) {
         a_task.abort();
         w_task.abort();
         net::shutdown_all();
+    });
+}
+
+/// Client-side emission routes, tapped on the wire.
+fn c01_clients(case: &Case) {
+    use crate::families::ws_common::unlimited_config;
+    use futures_util::{SinkExt, StreamExt};
+    use tokio_tungstenite::tungstenite::Message as WsMessage;
+    net::reset(draw_net());
+    #[derive(Clone, Debug)]
+    enum Op {
+        /// (notify, path, query format, body, body format)
+        Fmt(bool, String, u16, Option<Vec<u8>>, u16),
+        /// (aligned form, path, values) - AsyncClient only
+        Slice(bool, String, Vec<f64>),
+    }
+    let ws = coin();
+    let n = range(1, 6) as usize;
+    let ops: Vec<Op> = (0..n)
+        .map(|i| {
+            let path = format!("/c{}", "p".repeat(simkernel::choose(12) as usize));
+            if !ws && simkernel::choose(3) == 0 {
+                Op::Slice(coin(), path, (0..pick(&[0usize, 1, 3, 17])).map(|k| i as f64 + k as f64 / 4.0).collect())
+            } else {
+                let body = match simkernel::choose(3) {
+                    0 => None,
+                    1 => Some(Vec::new()),
+                    _ => Some(bytes(pick(&[1usize, 7, 300]))),
+                };
+                Op::Fmt(simkernel::choose(3) == 0, path, any_u16(), body, any_u16())
+            }
+        })
+        .collect();
+    case.sample(json!({"client": if ws {"WebSocketClient"} else {"AsyncClient"}, "ops": ops.iter().map(|o| match o {
+        Op::Fmt(nf, p, qf, b, bf) => format!("{} {p} qf={qf} bf={bf} body={:?}", if *nf {"notify"} else {"call"}, b.as_ref().map(|b| b.len())),
+        Op::Slice(al, p, v) => format!("{} {p} {} values", if *al {"aligned-slice"} else {"slice"}, v.len()),
+    }).collect::<Vec<_>>()}));
+    let case = case.clone();
+    aio::run_or_error(&case.clone(), 3_600, async move {
+        // a recording peer that answers every request with an echo of it
+        let listener = simkernel::tokio_net::TcpListener::bind("127.0.0.1:0").await.unwrap();
+        let addr = listener.local_addr().unwrap();
+        let seen: Arc<std::sync::Mutex<Vec<Vec<u8>>>> = Default::default();
+        let seen2 = seen.clone();
+        let server = tokio::spawn(async move {
+            let Ok((stream, _)) = listener.accept().await else { return };
+            if ws {
+                let Ok(w) = tokio_tungstenite::accept_async_with_config(stream, Some(unlimited_config())).await else { return };
+                let (mut sink, mut rd) = w.split();
+                while let Some(Ok(m)) = rd.next().await {
+                    if let WsMessage::Binary(b) = m {
+                        seen2.lock().unwrap().push(b.to_vec());
+                        if b.len() >= 48 && b[11] == 0 && sink.send(WsMessage::Binary(b)).await.is_err() {
+                            return;
+                        }
+                    }
+                }
+            } else {
+                let (rd, mut wr) = stream.into_split();
+                let mut fr = FrameReader::new(rd);
+                while let Ok(Some(f)) = fr.next().await {
+                    let enc = f.encode();
+                    seen2.lock().unwrap().push(enc.clone());
+                    if f.notify == 0 && aio::write_all(&mut wr, &enc).await.is_err() {
+                        return;
+                    }
+                }
+            }
+        });
+        let to = Duration::from_secs(60);
+        if ws {
+            let Ok(client) = repe::WebSocketClient::connect(&format!("ws://{addr}/repe")).await else {
+                case.harness_error("WebSocket connect failed");
+                return;
+            };
+            for op in &ops {
+                if let Op::Fmt(notify, path, qf, body, bf) = op {
+                    if *notify {
+                        let _ = client.notify_with_formats(path, *qf, body.as_deref(), *bf).await;
+                    } else {
+                        let _ = client.call_with_formats_and_timeout(path, *qf, body.as_deref(), *bf, to).await;
+                    }
+                }
+            }
+            let _ = client.call_with_formats_and_timeout("/fin", 1, None, 0, to).await;
+        } else {
+            let Ok(client) = AsyncClient::connect(addr).await else {
+                case.harness_error("connect failed");
+                return;
+            };
+            for op in &ops {
+                match op {
+                    Op::Fmt(true, path, qf, body, bf) => {
+                        let _ = client.notify_with_formats(path, *qf, body.as_deref(), *bf).await;
+                    }
+                    Op::Fmt(false, path, qf, body, bf) => {
+                        let _ = client.call_with_formats_and_timeout(path, *qf, body.as_deref(), *bf, to).await;
+                    }
+                    Op::Slice(true, path, v) => {
+                        let _ = client.call_typed_slice_aligned_with_timeout::<_, f64, f64>(path, v, to).await;
+                    }
+                    Op::Slice(false, path, v) => {
+                        let _ = client.call_typed_slice_with_timeout::<_, f64, f64>(path, v, to).await;
+                    }
+                }
+            }
+            let _ = client.call_with_formats_and_timeout("/fin", 1, None, 0, to).await;
+        }
+        let seen = seen.lock().unwrap().clone();
+        if !case.check(seen.len() == ops.len() + 1, "round-trip-differs", || format!("{} operations (+1 barrier) put {} frames on the wire", ops.len(), seen.len())) {
+            return;
+        }
+        for (k, (op, raw)) in ops.iter().zip(seen.iter()).enumerate() {
+            if raw.len() < 48 {
+                case.fail("bytes-differ", format!("operation {k}: {} bytes on the wire", raw.len()));
+                return;
+            }
+            let id = crate::codec::rd_u64(raw, 16);
+            match op {
+                Op::Fmt(notify, path, qf, body, bf) => {
+                    let mut f = Frame::new(id, path.as_bytes(), body.as_deref().unwrap_or(&[])).with_formats(*qf, *bf);
+                    f.notify = *notify as u8;
+                    if !same(&case, if ws { "WebSocketClient *_with_formats" } else { "AsyncClient *_with_formats" }, raw, &f.encode(), &format!("operation {k}: {op:?}")) {
+                        return;
+                    }
+                }
+                Op::Slice(aligned, path, v) => {
+                    let b = Message::builder().id(id).query_str(path).query_format_code(1);
+                    let reference = if *aligned { b.body_aligned_typed_slice(v) } else { b.body_typed_slice(v) }.build().to_vec();
+                    if !same(&case, if *aligned { "AsyncClient::call_typed_slice_aligned vs. builder" } else { "AsyncClient::call_typed_slice vs. builder" }, raw, &reference, &format!("operation {k}: path {path:?}, {} values", v.len())) {
+                        return;
+                    }
+                    if !*aligned {
+                        let mut f = Frame::new(id, path.as_bytes(), &beve::to_vec_typed_slice(v)).with_formats(1, 1);
+                        f.notify = 0;
+                        same(&case, "AsyncClient::call_typed_slice", raw, &f.encode(), &format!("operation {k}"));
+                    } else if !v.is_empty() {
+                        // the payload (the last 8 * n bytes of the frame) starts on an 8-byte boundary
+                        let start = raw.len() - 8 * v.len();
+                        case.check(start % 8 == 0, "bytes-differ", || format!("operation {k}: the f64 payload of an aligned slice starts at frame offset {start} (path {path:?})"));
+                        let payload: Vec<u8> = v.iter().flat_map(|x| x.to_le_bytes()).collect();
+                        case.check(raw[start..] == payload[..], "bytes-differ", || format!("operation {k}: the aligned slice's payload bytes differ from the values"));
+                    }
+                }
+            }
+        }
+        case.nontrivial();
+        server.abort();
     });
 }
